@@ -55,6 +55,9 @@ def run(ctx):
     from . import c15, c17
     c15.cli_arm_dep(ctx, "C12", ('Cgr',))
     c17.open_rules(dep(ctx, "C12", "C17"))
+    rule_threads_default(ctx, "C12.O", "composition::oligocgr::OligoCgrComputer")
+    from . import c02
+    c02.revcomp_rules(dep(ctx, "C12", "C02"))      # the canonical column set is built with rev_comp: it must be the generator's
     # (x, y) is the chaos-game end point at the requested square size: corner table, centre and constructor of this copy
     mp = c11.ctor_rule(dep(ctx, "C12", "C11"), "C11.C", "composition::oligocgr::OligoCgrComputer::new", ADT)
     if mp is not None:
